@@ -442,6 +442,13 @@ def run(ctx):
         check_complement(ctx, res)
     with res.guard("check_complement_none(ctx, res)"):
         check_complement_none(ctx, res)
+    # the directed model rebuilds its result through DirectedHypergraph(edge_list=...) -> add_edge: a reshuffled hyperedge may carry
+    # a node on both sides, and add_edge has to store it as it is
+    from .. import rules_container as RC
+
+    res.rules["K-SIDES"] = "DirectedHypergraph.add_edge stores source and target as given: neither side is filtered by membership in the other"
+    with res.guard("RC.check_sides_kept(ctx, res)"):
+        RC.check_sides_kept(ctx, res)
     with res.guard("check_directed_swapctx, res"):
         check_directed_swap(ctx, res)
     with res.guard("G-REUSE"):
